@@ -1,5 +1,7 @@
 import PC.Tie.Probe
 import PC.Spec.Pure
+import PC.Proofs.SupArms
+import PC.Spec.SupSpec
 /-! C10 — health probes: effective parameters are legal; fatal ⇔ threshold reached (pure part). -/
 namespace PC.Props.C10
 open PC.Probe PC.Go PC.Spec
@@ -67,6 +69,55 @@ theorem contiguous_after (pre : List Bool) (k : Nat) :
 
 theorem contiguous_initial (k : Nat) : contiguous (List.replicate k false) = k := by
   unfold contiguous; rw [fold_fail]; omega
+
+/-! ### Probe results in the supervisor model -/
+section Dynamic
+open PC.Sup
+
+/-- A successful readiness check on the running instance (prober not stopped) reports Ready and
+    releases the dependents waiting for health. -/
+theorem probe_ok_ready (s : Sys) (n : Name) (i : IId) (h : Hints) (hr : s.running.getD n none = some i)
+    (hp : (s.inst i).probeStopped = false) (hn : n < s.pstates.length) (hi : i < s.insts.length) :
+    ((step s (.probe n true) h).ps n).health = .ready ∧ ((step s (.probe n true) h).inst i).readyDone = true := by
+  simp only [step, hr]
+  have hp' : (({ s with obs := [] } : Sys).inst i).probeStopped = false := hp
+  simp only [hp', Bool.false_eq_true, ↓reduceIte]
+  constructor
+  · rw [setInst_ps, ps_setPs _ _ _ _ (by simpa using hn)]; simp
+  · rw [inst_setInst _ _ _ _ (by simpa using hi)]; simp
+
+/-- A failed (non-fatal) readiness check reports Not Ready. -/
+theorem probe_fail_not_ready (s : Sys) (n : Name) (i : IId) (h : Hints) (hr : s.running.getD n none = some i)
+    (hp : (s.inst i).probeStopped = false) (hn : n < s.pstates.length) :
+    ((step s (.probe n false) h).ps n).health = .notReady := by
+  simp only [step, hr]
+  have hp' : (({ s with obs := [] } : Sys).inst i).probeStopped = false := hp
+  simp only [hp', Bool.false_eq_true, ↓reduceIte]
+  rw [ps_setPs _ _ _ _ (by simpa using hn)]; simp
+
+/-- A stopped prober reports nothing (results arriving after a stop are dropped). -/
+theorem probe_after_stop_ignored (s : Sys) (n : Name) (i : IId) (h : Hints) (ok : Bool)
+    (hr : s.running.getD n none = some i) (hp : (s.inst i).probeStopped = true) :
+    (step s (.probe n ok) h).pstates = s.pstates := by
+  simp only [step, hr]
+  have hp' : (({ s with obs := [] } : Sys).inst i).probeStopped = true := hp
+  simp [hp']
+
+/-- `failure_threshold` consecutive failures on an `always` process: it is stopped (internal stop:
+    Terminating, signal) and, after the command exits, relaunched (fix P1) with its readiness
+    forgotten. -/
+def probed : List Cfg := [{ policy := .always, hasReadyProbe := true }]
+def fatalRun : List Choice :=
+  [.call 0 .runMain, .run 0, .run 1, .run 2, .probe 0 true, .probeFatal 7 0, .run 3, .run 1, .run 1, .run 4]
+
+set_option maxRecDepth 4000 in
+example : ((runTrace (init .coarse false probed) fatalRun).2.filter fun o => isLaunch o || (match o with | .stop .. => true | _ => false))
+    = [.launch 0, .stop 0 0, .launch 0] := by decide
+set_option maxRecDepth 4000 in
+example : ((runTrace (init .coarse false probed) fatalRun).1.ps 0).health = .unknown ∧
+    ((runTrace (init .coarse false probed) fatalRun).1.ps 0).restarts = 1 := by decide
+
+end Dynamic
 
 example : Legal (validateAndSetDefaults ⟨-5, 0, -1, 0, -9⟩) := defaults_legal _
 example : validateAndSetDefaults ⟨-5, 0, -1, 0, -9⟩ = ⟨0, 10, 1, 1, 3⟩ := by decide
